@@ -8,11 +8,11 @@ PROPERTY = 'C06'
 LEVEL = 'exploration'
 RULE = ('inputs: (a) slash-free lexical soup - identifiers incl. non-ASCII/keyword-prefixed, all keywords, all '
         'punctuators, numeric and string spellings, every ES5 white-space and line-terminator code point, comments '
-        '- built so that it must lex; (b) G1 programs in all layouts (contain `/`). Iterate Lexer(yield_comments=True), '
+        '- built so that it must lex; (a2) exhaustively every run of 1..4 (thorough: 5) operator characters <>=!+-*%&|^~?:. between two identifiers; (b) G1 programs in all layouts (contain `/`). Iterate Lexer(yield_comments=True), '
         'drop the library\'s auto-generated (inserted) tokens. Oracle: offsets strictly increase, '
         'text[lexpos:lexpos+len(value)] == value, gaps and tail are only WhiteSpace|LineTerminator, line/column '
-        'equal the reference count at lexpos; for (a) the (class, text, offset) list equals the reference lexer\'s; '
-        'for (b) per-token class/text consistency and longest-match of punctuators. Inputs on which the lexer '
+        'equal the reference count at lexpos; for (a), (a2) the (class, text, offset) list equals the reference lexer\'s; '
+        'for (b) per-token class/text consistency and longest-match of punctuators. (c) histories: in an interpreter of its own, a first text read through one of Lexer() / with_comments / yield_comments / a Parser, then every text of a small multi-line pool through fresh Lexer objects of alternating flavour - positions as above (what one lexer read must not show in another). Inputs on which the lexer '
         'raises are outside the quantifier (counted). non-trivial = >= 2 line terminator kinds, or a multi-line '
         'token, or a non-ASCII identifier/white space, or adjacent punctuators; distinct by text')
 ASSUMPTIONS = ['reference lexer of R1 and reference position arithmetic R5 (harness/positions.py)']
@@ -160,7 +160,94 @@ def check_text(acc, text, opens, origin, compare_ref):
 
 
 def replay(case, acc):
+    if 'history' in case:
+        from harness import build
+        root = build.make_copy()
+        try:
+            check_history(acc, (), root, case['history'])
+        finally:
+            build.remove(root)
+        return
     check_text(acc, case['text'], (), case.get('origin', 'replay'), case.get('compare_ref', False))
+
+
+# ---- the first lexers of a process: what one Lexer object read must not show in the positions another reports.
+# Every history runs in an interpreter of its own, so that its first lexer is the first lexer of the process.
+FLAVOURS = ['plain', 'with_comments', 'yield_comments', 'parser']
+HISTORY_TEXTS = ['x', 'a\n\nb\r\nc\rd', 'p /*\n\n*/ q\u2028r\u2029s', 'u = "v\\\nw";\nz', '// c\n\n\n t', '',
+                 'var k = 1;\nfunction f() {\n  return k;\n}\n']
+CHILD_CODE = r'''
+import json
+from calmjs.parse.lexers.es5 import Lexer
+from calmjs.parse.lexers.tokens import AutoLexToken
+from calmjs.parse.parsers.es5 import Parser
+out = []
+for flavour, text in json.loads(sys.argv[1]):
+    if flavour == 'parser':
+        p = Parser()
+        try:
+            p.parse(text)
+        except Exception:
+            pass
+        out.append(None)
+        continue
+    lx = Lexer(with_comments=(flavour == 'with_comments'), yield_comments=(flavour == 'yield_comments'))
+    lx.input(text)
+    toks = []
+    try:
+        for tok in lx:
+            if not isinstance(tok, AutoLexToken):
+                toks.append([tok.type, tok.value, tok.lexpos, tok.lineno, getattr(tok, 'colno', None)])
+    except Exception as e:
+        toks = repr(e)
+    out.append(toks)
+print(json.dumps(out))
+'''
+
+
+def histories():
+    import itertools
+    out = []
+    # first step: every flavour x every text; then each text once more through every lexer flavour
+    for flavour, first in itertools.product(FLAVOURS, HISTORY_TEXTS):
+        h = [[flavour, first]]
+        for k, text in enumerate(HISTORY_TEXTS):
+            h.append([FLAVOURS[(k + len(first)) % 3], text])
+        out.append(h)
+    return out
+
+
+def check_history(acc, opens, root, history):
+    import json
+    import subprocess
+    import sys
+    from harness import build
+    p = subprocess.run([sys.executable, '-c', build.boot_code(root) + CHILD_CODE, json.dumps(history)],
+                       env=build.child_env(root), capture_output=True, text=True, timeout=300)
+    case = {'history': history}
+    if p.returncode != 0:
+        acc.fail(None, case, {'bucket': 'history_child_fails', 'stderr': p.stderr[-400:]}, opens)
+        return False
+    got = json.loads(p.stdout.strip().splitlines()[-1])
+    ok = True
+    for step, ((flavour, text), toks) in enumerate(zip(history, got)):
+        if toks is None:
+            continue
+        if not isinstance(toks, list):
+            acc.skipped['lexer_raises_history'] += 1
+            continue
+        lm = positions.LineMap(text)
+        for (ty, val, lexpos, line, col) in toks:
+            exp = lm.linecol(lexpos)
+            if text[lexpos:lexpos + len(val)] != val or (line, col) != exp:
+                acc.fail(None, case, {'bucket': 'history_position', 'step': step, 'flavour': flavour, 'text': text,
+                                      'token': [ty, val, lexpos], 'reported': [line, col], 'expected': list(exp)},
+                         opens)
+                ok = False
+                break
+        if not ok:
+            break
+    return ok
 
 
 from harness.shrink import text_shrinker  # noqa: E402
@@ -196,7 +283,24 @@ def plan(tier, seed):
     for k in range(16):
         shards.append({'name': 'soup-%d' % k, 'kind': 'soup', 'n': n_soup // 16, 'hseed': seed * 1000 + k})
         shards.append({'name': 'g1-%d' % k, 'kind': 'g1', 'n': n_g1 // 16, 'hseed': seed * 1000 + 100 + k})
+        shards.append({'name': 'punct-%d' % k, 'kind': 'punct', 'part': k, 'maxlen': 4 if quick else 5})
+        shards.append({'name': 'history-%d' % k, 'kind': 'history', 'part': k})
     return shards
+
+
+OPERATOR_CHARS = '<>=!+-*%&|^~?:.'
+
+
+def operator_runs(part, maxlen):
+    """every string of 1..maxlen operator characters (slash-free), between two identifiers: the run has to be cut
+    into punctuators longest-first, whatever it looks like in other languages or later editions"""
+    import itertools
+    k = 0
+    for n in range(1, maxlen + 1):
+        for t in itertools.product(OPERATOR_CHARS, repeat=n):
+            k += 1
+            if k % 16 == part:
+                yield 'a' + ''.join(t) + 'b'
 
 
 def run_shard(shard):
@@ -212,6 +316,17 @@ def run_shard(shard):
                 acc.label('soup_' + kind)
             acc.label('soup_lexed' if got is not None else 'soup_rejected')
         run_given(gen_lexsoup.soup(), body, shard['n'], shard['hseed'], acc)
+    elif shard['kind'] == 'history':
+        for k, h in enumerate(histories()):
+            if k % 16 == shard['part']:
+                check_history(acc, opens, shard['root'], h)
+                acc.case(('history', k), True, {'history': h} if k == 8 else None)
+                acc.label('history_first_' + h[0][0])
+    elif shard['kind'] == 'punct':
+        for text in operator_runs(shard['part'], shard['maxlen']):
+            got = check_text(acc, text, opens, 'punct', True)
+            acc.case(text, got is not None and len(got) > 3, {'text': text} if len(text) == 6 and text[1] == '<' else None)
+            acc.label('punct_lexed' if got is not None else 'punct_rejected')
     else:
         def body(p):
             got = check_text(acc, p['text'], opens, 'g1', False)
